@@ -75,6 +75,7 @@ fn run(ctx: &RunCtx) {
         configs: &|t| gen_configs(t, 6),
         filters,
         nontrivial: &|_| true,
+        lua51_target: false,
     };
     common::run_behaviour(ctx, "programs", &spec);
 }
